@@ -42,8 +42,58 @@ def pytest_configure(config):
 
         install_speedups()
         hooks.install_call_recorder()
+        if "C07" in _MON:
+            _install_purity_observers(hooks)
+        if "C17" in _MON:
+            from .props.C17 import install_printer_hook
+
+            install_printer_hook()
     except Exception:
         traceback.print_exc()
+
+
+# ---------------------------------------------------------------------------- C07
+_PURITY = {"events": [], "checked": 0}
+
+
+def _install_purity_observers(hooks):
+    """fingerprint the input procedure (and its callees) before every primitive call made by a
+    test and compare after the call, whether it returned or raised"""
+    from . import irutil
+
+    def fps(proc):
+        ir = getattr(proc, "_loopir_proc", None)
+        if ir is None:
+            return None
+        out = [(ir, irutil.fingerprint(ir))]
+        try:
+            for c in irutil.callees(ir):
+                out.append((c, irutil.fingerprint(c)))
+        except Exception:
+            pass
+        return out
+
+    def pre(rec):
+        try:
+            if irutil.count_nodes(rec.proc_in._loopir_proc) > 1500:
+                return
+        except Exception:
+            return
+        rec.aux = fps(rec.proc_in)
+
+    def post(rec):
+        if not rec.aux:
+            return
+        _PURITY["checked"] += 1
+        for ir, fp in rec.aux:
+            if irutil.fingerprint(ir) != fp:
+                if len(_PURITY["events"]) < 10:
+                    _PURITY["events"].append({"op": rec.op, "proc": str(getattr(ir, "name", "?")), "raised": rec.exc is not None})
+                break
+        rec.aux = None
+
+    hooks.REC.pre = pre
+    hooks.REC.post = post
 
 
 def pytest_runtest_setup(item):
@@ -86,6 +136,28 @@ def _judge_calls(test_id, calls):
     rng = _STATE["rng"]
     _w({"t": "stat", "k": "w2.tests", "n": 1})
     budget_t = time.time() + 20  # per test, generation only
+    if "C07" in _MON:
+        n = _PURITY["checked"]
+        _PURITY["checked"] = 0
+        _w({"t": "stat", "k": "w2.purity_checks", "n": n})
+        _w({"t": "stat", "k": "evaluations", "n": n})
+        for ev in _PURITY["events"]:
+            _w({"t": "viol", "sig": {"prop": "C07", "monitor": "purity", "kind": "fingerprint", "op": ev["op"], "workload": "W2"}, "case": {"w2_test": test_id, "detail": ev}})
+        _PURITY["events"] = []
+    if "C17" in _MON:
+        from .props.C17 import _HOOK
+
+        n = _HOOK["evals"]
+        _HOOK["evals"] = 0
+        _w({"t": "stat", "k": "w2.get_name_evals", "n": n})
+        _w({"t": "stat", "k": "evaluations", "n": 1 if n else 0})
+        for ev in _HOOK["events"]:
+            _w({"t": "viol", "sig": {"prop": "C17", "monitor": "get_name", "kind": "two_symbols_one_name", "workload": "W2"}, "case": {"w2_test": test_id, "event": ev}})
+        _HOOK["events"] = []
+    if "C06" in _MON:
+        _judge_forwarding(test_id, calls, budget_t)
+    if not (_MON & {"C01", "C04"}):
+        return
     for k, c in enumerate(calls):
         if not c.accepted or c.proc_in is None or not hasattr(c.proc_in, "_loopir_proc"):
             if c.exc is not None:
@@ -143,3 +215,77 @@ def _judge_calls(test_id, calls):
             kind = "poison" if j["verdict"] == "poison" else "event:" + str(ev.get("kind") or (j["witness"] or {}).get("aborted"))
             sig = {"prop": "C04", "monitor": "safety", "kind": kind, "op": c.op, "workload": "W2", "features": ir_features(old_ir), "diag": diagnose(c.op, old_ir, new_ir, c)}
             _w({"t": "viol", "sig": sig, "case": dict(case, witness=j["witness"], input=j["spec"].to_json() if j["spec"] else None)})
+
+
+# ---------------------------------------------------------------------------- C06
+class _W2Ctx:
+    """the part of the shard context the stream monitors use, writing W2 records"""
+
+    def __init__(self, rng):
+        self.rng = rng
+        self._nsamples = 99
+
+    def stat(self, k, n=1):
+        _w({"t": "stat", "k": k, "n": n})
+
+    def distinct(self, h, nontrivial=True):
+        _w({"t": "distinct", "h": h, "nt": bool(nontrivial)})
+
+    def inconclusive(self, k, n=1):
+        _w({"t": "inconc", "k": k, "n": n})
+
+    def sample(self, *a, **k):
+        pass
+
+
+class _Pair:
+    """two procedures presented to ForwardMonitor.check_pair as a session"""
+
+    def __init__(self, a, b):
+        self.procs = [a, b]
+        self.steps = []
+
+
+def _judge_forwarding(test_id, calls, budget_t):
+    from . import irutil
+    from .common import jhash
+    from .monitors import ForwardMonitor
+    from .stream import sstr
+
+    class M(ForwardMonitor):
+        def report(self, sess, step, kind, detail, frm, to):
+            sig = {"prop": "C06", "monitor": "forward", "kind": kind, "op": step["op"], "span": 1, "workload": "W2"}
+            if step.get("flags"):
+                sig["flags"] = step["flags"]  # boolean arguments of the call (mechanism level, e.g. guard=True)
+            _w({"t": "viol", "sig": sig, "case": {"w2_test": test_id, "op": step["op"], "detail": detail, "before": sstr(sess.procs[0], 2500), "after": sstr(sess.procs[1], 2500)}})
+
+    mon = M(_W2Ctx(_STATE["rng"]), max_cursors=80, implicit_every=0)
+    seen = set()
+    for c in calls:
+        if time.time() > budget_t:
+            _w({"t": "stat", "k": "w2.forward_skipped_time", "n": 1})
+            break
+        if not c.accepted or c.proc_in is None or not hasattr(c.proc_in, "_loopir_proc"):
+            continue
+        a, b = c.proc_in, c.proc_out
+        if a._loopir_proc is b._loopir_proc:
+            continue
+        try:
+            if irutil.count_nodes(a._loopir_proc) > 1200:
+                _w({"t": "stat", "k": "w2.forward_skipped_large", "n": 1})
+                continue
+        except Exception:
+            continue
+        h = jhash([irutil.fingerprint(a._loopir_proc, alpha=True), c.op])
+        if h in seen:
+            continue
+        seen.add(h)
+        mon.on_program(None)
+        try:
+            flags = {k: v for k, v in (c.kwargs or {}).items() if isinstance(v, bool)}
+            mon.check_pair(_Pair(a, b), {"op": c.op, "flags": flags}, 0, 1)
+            _w({"t": "stat", "k": "w2.forward_pairs", "n": 1})
+            _w({"t": "stat", "k": f"op.judged.{c.op}", "n": 1})
+            _w({"t": "distinct", "h": h, "nt": True})
+        except Exception as e:
+            _w({"t": "inconc", "k": "w2_forward_error:" + type(e).__name__, "n": 1})
